@@ -156,9 +156,9 @@ class O2JMapSetMeta:
             meta_fields.append(meta_field)
 
         def decode_replace(b: bytes):
-            return b"".join(filter(lambda x: x != b"\x00", b)).decode(
-                "ascii", errors="ignore"
-            )
+            # CHAR[n] fields are NUL-terminated: bytes after the terminator are
+            # left-overs of the buffer, not text
+            return b"".join(b).split(b"\x00", 1)[0].decode("ascii", errors="ignore")
 
         self.song_id = meta_fields[0][0]
         self.signature = decode_replace(meta_fields[1])
